@@ -7,16 +7,30 @@ namespace Lc3V
 /-- a run of blanks and tabs -/
 def IsGap (g : List Char) : Prop := ∀ c ∈ g, c = ' ' ∨ c = '\t'
 
-/-- atoms with the blanks written after each of them -/
-def renderGaps : List (Atom × List Char) → List Char
-  | [] => []
-  | (a, g) :: rest => a.chars ++ g ++ renderGaps rest
+/-- a piece of text, the token it is lexed as, and what has to follow it for that -/
+structure LAtom where
+  chars : List Char
+  tok : Token
+  needs : List Char → Prop
 
-/-- every atom is followed by at least one blank, or by a comma atom, or by the end of the text; a comma needs nothing -/
-def GapSeqOk : List (Atom × List Char) → Prop
+def LAtom.Ok (a : LAtom) : Prop :=
+  (∃ c cs, a.chars = c :: cs ∧ c ≠ ' ' ∧ c ≠ '\t') ∧
+  ∀ rest, a.needs rest → lexOne (a.chars ++ rest) = ⟨.ok a.tok, a.chars.length⟩
+
+/-- a word-like atom (mnemonic, register, literal, label, directive, string): must be followed by a delimiter or the end -/
+def ofAtom (a : Atom) : LAtom := ⟨a.chars, a.tok, Delim⟩
+
+theorem ofAtom_ok (a : Atom) (h : a.Ok) : (ofAtom a).Ok := h
+
+/-- atoms with the blanks written after each of them -/
+def renderL : List (LAtom × List Char) → List Char
+  | [] => []
+  | (a, g) :: rest => a.chars ++ g ++ renderL rest
+
+/-- what follows each atom (its blanks, then the rest of the text) is what the atom needs -/
+def LSeqOk : List (LAtom × List Char) → Prop
   | [] => True
-  | [_] => True
-  | (a, g) :: (b, h) :: rest => (g ≠ [] ∨ (∃ cs, b.chars = ',' :: cs) ∨ (a.chars = [','] ∧ a.tok = .comma)) ∧ GapSeqOk ((b, h) :: rest)
+  | (a, g) :: rest => a.needs (g ++ renderL rest) ∧ LSeqOk rest
 
 theorem lexAll_skip_gap (g : List Char) (hg : IsGap g) : ∀ (fuel : Nat) (rest : List Char) (off : Nat) (acc : List SpTok),
     g.length ≤ fuel → ∃ off', lexAll fuel (g ++ rest) off acc = lexAll (fuel - g.length) rest off' acc := by
@@ -36,86 +50,89 @@ theorem delim_gap (g : List Char) (hg : IsGap g) (hne : g ≠ []) (rest : List C
   cases g with
   | nil => exact absurd rfl hne
   | cons c cs =>
-    rcases hg c (by simp) with rfl | rfl
-    · right; exact ⟨cs ++ rest, Or.inl rfl⟩
-    · right; exact ⟨cs ++ rest, Or.inr (Or.inr rfl)⟩
-
-theorem delim_after_gap (a : Atom) (g : List Char) (rest : List (Atom × List Char)) (hg : IsGap g)
-    (h : GapSeqOk ((a, g) :: rest)) : Delim (g ++ renderGaps rest) ∨ (a.chars = [','] ∧ a.tok = .comma) := by
-  by_cases hne : g = []
-  · subst hne
-    simp only [List.nil_append]
-    cases rest with
-    | nil => left; left; rfl
-    | cons b bs =>
-      obtain ⟨b, hb⟩ := b
-      rcases h.1 with h1 | ⟨cs, hcs⟩ | hcomma
-      · exact absurd rfl h1
-      · left; right; exact ⟨cs ++ hb ++ renderGaps bs, Or.inr (Or.inl (by simp [renderGaps, hcs]))⟩
-      · right; exact hcomma
-  · left; exact delim_gap g hg hne _
-
-theorem lexOne_comma (rest : List Char) : lexOne (',' :: rest) = ⟨.ok .comma, 1⟩ := by simp [lexOne]
+    right
+    refine ⟨c, cs ++ rest, rfl, ?_⟩
+    rcases hg c (by simp) with rfl | rfl <;> decide
 
 /-- lexing atoms separated by arbitrary runs of blanks and tabs yields exactly the atoms' tokens -/
-theorem lexAll_gaps : ∀ (as : List (Atom × List Char)) (fuel off : Nat) (acc : List SpTok), GapSeqOk as →
-    (∀ a ∈ as, a.1.Ok ∧ IsGap a.2) → (renderGaps as).length < fuel →
-    ∃ ts, lexAll fuel (renderGaps as) off acc = .ok (acc.reverse ++ ts) ∧ ts.map (·.tok) = as.map (·.1.tok) := by
+theorem lexAll_L : ∀ (as : List (LAtom × List Char)) (fuel off : Nat) (acc : List SpTok), LSeqOk as →
+    (∀ a ∈ as, a.1.Ok ∧ IsGap a.2) → (renderL as).length < fuel →
+    ∃ ts, lexAll fuel (renderL as) off acc = .ok (acc.reverse ++ ts) ∧ ts.map (·.tok) = as.map (·.1.tok) := by
   intro as
   induction as with
-  | nil => intro fuel off acc _ _ hf; cases fuel <;> exact ⟨[], by simp [renderGaps, lexAll], rfl⟩
+  | nil => intro fuel off acc _ _ hf; cases fuel <;> exact ⟨[], by simp [renderL, lexAll], rfl⟩
   | cons x as ih =>
     intro fuel off acc hseq hok hf
     obtain ⟨a, g⟩ := x
     obtain ⟨f, rfl⟩ : ∃ f, fuel = f + 1 := ⟨fuel - 1, by omega⟩
     obtain ⟨⟨⟨c, cs, hc, hns, hnt⟩, hlex⟩, hg⟩ := hok (a, g) (by simp)
     simp only at hc hlex hg
-    have hl : lexOne (a.chars ++ (g ++ renderGaps as)) = ⟨.ok a.tok, a.chars.length⟩ := by
-      rcases delim_after_gap a g as hg hseq with hdel | ⟨hcm, htk⟩
-      · exact hlex _ hdel
-      · rw [hcm, htk]; exact lexOne_comma _
-    have hseq' : GapSeqOk as := by
-      cases as with
-      | nil => trivial
-      | cons b bs => obtain ⟨b, hb⟩ := b; exact hseq.2
-    have hrender : renderGaps ((a, g) :: as) = c :: (cs ++ (g ++ renderGaps as)) := by
-      simp only [renderGaps, hc, List.cons_append, List.append_assoc]
+    have hl := hlex _ hseq.1
+    have hrender : renderL ((a, g) :: as) = c :: (cs ++ (g ++ renderL as)) := by
+      simp only [renderL, hc, List.cons_append, List.append_assoc]
     rw [hrender, lexAll]
     rw [if_neg (by intro h; rcases h with h | h; exact hns h; exact hnt h)]
-    have hl' : lexOne (c :: (cs ++ (g ++ renderGaps as))) = ⟨.ok a.tok, (c :: cs).length⟩ := by
+    have hl' : lexOne (c :: (cs ++ (g ++ renderL as))) = ⟨.ok a.tok, (c :: cs).length⟩ := by
       have := hl; rw [hc] at this; simpa using this
     simp only [hl']
-    have hsplit : c :: (cs ++ (g ++ renderGaps as)) = (c :: cs) ++ (g ++ renderGaps as) := by simp
-    have htake : (c :: (cs ++ (g ++ renderGaps as))).take (c :: cs).length = c :: cs := by rw [hsplit, List.take_left']; rfl
-    have hdrop : (c :: (cs ++ (g ++ renderGaps as))).drop (c :: cs).length = g ++ renderGaps as := by rw [hsplit, List.drop_left']; rfl
+    have hsplit : c :: (cs ++ (g ++ renderL as)) = (c :: cs) ++ (g ++ renderL as) := by simp
+    have htake : (c :: (cs ++ (g ++ renderL as))).take (c :: cs).length = c :: cs := by rw [hsplit, List.take_left']; rfl
+    have hdrop : (c :: (cs ++ (g ++ renderL as))).drop (c :: cs).length = g ++ renderL as := by rw [hsplit, List.drop_left']; rfl
     rw [htake, hdrop]
-    have hlen : (renderGaps ((a, g) :: as)).length = (c :: cs).length + g.length + (renderGaps as).length := by
+    have hlen : (renderL ((a, g) :: as)).length = (c :: cs).length + g.length + (renderL as).length := by
       rw [hrender]; simp [List.length_append]; omega
-    obtain ⟨off', hskip⟩ := lexAll_skip_gap g hg f (renderGaps as) (off + blen (c :: cs)) (⟨a.tok, off, off + blen (c :: cs)⟩ :: acc)
+    obtain ⟨off', hskip⟩ := lexAll_skip_gap g hg f (renderL as) (off + blen (c :: cs)) (⟨a.tok, off, off + blen (c :: cs)⟩ :: acc)
       (by simp only [List.length_cons] at hlen hf; omega)
     rw [hskip]
-    obtain ⟨ts, h1, h2⟩ := ih (f - g.length) off' (⟨a.tok, off, off + blen (c :: cs)⟩ :: acc) hseq' (fun y hy => hok y (by simp [hy]))
+    obtain ⟨ts, h1, h2⟩ := ih (f - g.length) off' (⟨a.tok, off, off + blen (c :: cs)⟩ :: acc) hseq.2 (fun y hy => hok y (by simp [hy]))
       (by simp only [List.length_cons] at hlen hf; omega)
     exact ⟨⟨a.tok, off, off + blen (c :: cs)⟩ :: ts, by rw [h1]; simp, by simp [h2]⟩
 
 /-- the whole lexer, with leading blanks -/
-theorem lex_gaps (lead : List Char) (hlead : IsGap lead) (as : List (Atom × List Char)) (hseq : GapSeqOk as)
+theorem lex_L (lead : List Char) (hlead : IsGap lead) (as : List (LAtom × List Char)) (hseq : LSeqOk as)
     (hok : ∀ a ∈ as, a.1.Ok ∧ IsGap a.2) :
-    ∃ ts, lex (lead ++ renderGaps as) = .ok ts ∧ ts.map (·.tok) = as.map (·.1.tok) := by
+    ∃ ts, lex (lead ++ renderL as) = .ok ts ∧ ts.map (·.tok) = as.map (·.1.tok) := by
   unfold lex
-  obtain ⟨off', hskip⟩ := lexAll_skip_gap lead hlead ((lead ++ renderGaps as).length + 1) (renderGaps as) 0 [] (by simp; omega)
+  obtain ⟨off', hskip⟩ := lexAll_skip_gap lead hlead ((lead ++ renderL as).length + 1) (renderL as) 0 [] (by simp; omega)
   rw [hskip]
-  obtain ⟨ts, h1, h2⟩ := lexAll_gaps as ((lead ++ renderGaps as).length + 1 - lead.length) off' [] hseq hok (by simp; omega)
+  obtain ⟨ts, h1, h2⟩ := lexAll_L as ((lead ++ renderL as).length + 1 - lead.length) off' [] hseq hok (by simp; omega)
   exact ⟨ts, by simpa using h1, h2⟩
 
 /-- **layout insensitivity (one statement)**: any text made of well-behaved atoms whose token values are those of `s`,
     with any blanks and tabs before, between and after them, parses to `s` -/
-theorem parse_layout (s : Stmt) (lead : List Char) (hlead : IsGap lead) (as : List (Atom × List Char)) (hseq : GapSeqOk as)
+theorem parse_layout (s : Stmt) (lead : List Char) (hlead : IsGap lead) (as : List (LAtom × List Char)) (hseq : LSeqOk as)
     (hok : ∀ a ∈ as, a.1.Ok ∧ IsGap a.2) (hvals : as.map (·.1.tok) = labelToks s.labels ++ kindToks s.nucleus)
     (hcc : ∀ cc o, s.nucleus = .instr (.br cc o) → cc ≠ 0) (hb : ∀ n, s.nucleus = .directive (.blkw n) → n ≠ 0) :
-    ∃ s', parseAst (lead ++ renderGaps as) = .ok [s'] ∧ s'.labels.map (·.name) = s.labels.map (·.name) ∧ s'.nucleus.erase = s.nucleus.erase := by
-  obtain ⟨ts, hlex, hv⟩ := lex_gaps lead hlead as hseq hok
+    ∃ s', parseAst (lead ++ renderL as) = .ok [s'] ∧ s'.labels.map (·.name) = s.labels.map (·.name) ∧ s'.nucleus.erase = s.nucleus.erase := by
+  obtain ⟨ts, hlex, hv⟩ := lex_L lead hlead as hseq hok
   exact parse_of_lex s _ ts hlex (by rw [hv, hvals]) hcc hb
+
+/-! ### self-delimiting atoms: comma, line ends, comments -/
+
+def commaL : LAtom := ⟨[','], .comma, fun _ => True⟩
+def colonL : LAtom := ⟨[':'], .colon, fun _ => True⟩
+def nlL : LAtom := ⟨['\n'], .newline, fun _ => True⟩
+def crlfL : LAtom := ⟨['\r', '\n'], .newline, fun _ => True⟩
+/-- a comment: `;` and any characters except a line feed; it must be followed by a line feed or the end of the text -/
+def commentL (body : List Char) : LAtom := ⟨';' :: body, .comment, fun rest => rest = [] ∨ ∃ r, rest = '\n' :: r⟩
+
+theorem commaL_ok : commaL.Ok := ⟨⟨',', [], rfl, by decide, by decide⟩, fun rest _ => by simp [commaL, lexOne]⟩
+theorem colonL_ok : colonL.Ok := ⟨⟨':', [], rfl, by decide, by decide⟩, fun rest _ => by simp [colonL, lexOne]⟩
+theorem nlL_ok : nlL.Ok := ⟨⟨'\n', [], rfl, by decide, by decide⟩, fun rest _ => by simp [nlL, lexOne]⟩
+theorem crlfL_ok : crlfL.Ok := ⟨⟨'\r', ['\n'], rfl, by decide, by decide⟩, fun rest _ => by simp [crlfL, lexOne]⟩
+
+theorem commentL_ok (body : List Char) (hb : ∀ c ∈ body, c ≠ '\n') : (commentL body).Ok := by
+  refine ⟨⟨';', body, rfl, by decide, by decide⟩, ?_⟩
+  intro rest hr
+  show lexOne (';' :: body ++ rest) = ⟨.ok .comment, (';' :: body).length⟩
+  unfold lexOne
+  simp (config := {decide := true}) only [if_false, if_true, List.cons_append]
+  congr 1
+  have hp : ∀ c ∈ body, (decide (c ≠ '\n')) = true := by intro c hc; simpa using hb c hc
+  rw [List.takeWhile_append_of_pos hp]
+  rcases hr with rfl | ⟨r, rfl⟩
+  · simp; omega
+  · simp; omega
 
 /-! ### alternative spellings of the same token -/
 
